@@ -3,7 +3,7 @@ import json, os, subprocess, sys
 from pcv import core, setbuild, capio
 
 P = "PcVerif.Props.C09."
-THEOREMS = [P + t for t in ["writers_copy_or_pure", "write_preserves_input", "span_writers_reset_pinned", "write_resets_state", "output_history_independent"]]
+THEOREMS = [P + t for t in ["writers_copy_or_pure", "write_preserves_input", "span_writers_reset_pinned", "write_resets_state", "output_history_independent", "no_process_wide_memo"]]
 
 
 def make(tier, seed):
